@@ -198,6 +198,10 @@ PX("C07", "C07_locks", "Every request terminates: no deadlock on the managers' a
  ("C07_locks_policies", "locks_policies", "the assumption on the granting policy is met by locks treated as mutexes and by the most permissive policy"),
  ("C07_locks_embrace_refuted", "locks_embrace_refuted", "without the rank discipline the statement is false: two threads nesting two locks in opposite orders reach a state with no step (what the round-4 seeded change to the push loop introduces)"),
 ])
+PX("C07", "C07_overtaking", "Every request terminates: bounded overtaking in the actors' mailboxes", HDR_ACTORS, "ConcActorsX.v", [
+ ("C07_no_overtaking_topic", "no_overtaking_topic", "bounded overtaking under a load that never stops: nothing ever gets in front of a request that sits in a topic's mailbox - across any step the requests ahead of it stay or lose their head by the topic's own dequeue, arrivals go behind it - so a request at position p is taken after exactly p+1 dequeues of its topic"),
+ ("C07_no_overtaking_sub", "no_overtaking_sub", "the same for a subscription's mailbox (which is also cleared when the subscription's actor exits)"),
+])
 PX("C16", "C16_actors", "Abandoned requests have all-or-nothing effect", HDR_ACTORS, "ConcActorsP.v", [
  ("C16_exists_implies_attached", "C16_attached", "actor model with drops of any client at any pending point: at every quiescent reachable state every subscription that exists, is not deleted and whose topic lives is attached to that topic"),
  ("C16_never_wedged", "C16_no_wedge", "after any continuation, drops included, the server can still make progress whenever something is outstanding"),
